@@ -7,6 +7,7 @@ import (
 	"crypto/sha256"
 	"fmt"
 	"math/big"
+	"sync"
 
 	"github.com/MinterTeam/minter-go-node/coreV2/check"
 	"github.com/MinterTeam/minter-go-node/coreV2/transaction"
@@ -25,10 +26,15 @@ type Key struct {
 	Name string
 }
 
-var keyCache = map[string]*Key{}
+var (
+	keyCache = map[string]*Key{}
+	keyMu    sync.Mutex
+)
 
 // K returns the deterministic key with the given name.
 func K(name string) *Key {
+	keyMu.Lock()
+	defer keyMu.Unlock()
 	if k, ok := keyCache[name]; ok {
 		return k
 	}
